@@ -247,7 +247,7 @@ def main(rep, tier, only):
         got_none = [r for r in rows.values() if r[0] is False]
         got_some = [r for r in rows.values() if r[0] is True]
         ok_none = len(got_none) == 1 and got_none[0][1] in ("false", "#1:operator()", "0") or (got_none and all("false" in r[1] or "const_" in r[1] for r in got_none))
-        ok_some = bool(got_some) and all(any(">=" in a and "_level" in a.split(">=")[0] for a in r[2]) or ">=" in r[1] for r in got_some)
+        ok_some = bool(got_some) and all(any(">=" in a and "r_a0" in a.split(">=")[0] for a in r[2]) or ">=" in r[1] for r in got_some)
         for nm, ok, detail in (("no-level", ok_none, got_none), ("level-set", ok_some, got_some)):
             if ok:
                 rep.ok("EN-1", "object::enabled|" + nm, F.primary_site(fn), F.fn_name(fn), how="row-equal")
@@ -280,7 +280,7 @@ def main(rep, tier, only):
                 if stopped:
                     why = "a child is looked up after a component of the location was missing (components are skipped instead of ending the walk)"
                     break
-                if a[0] != cur or "_location[%d]" % k not in a[1]:
+                if a[0] != cur or "r_a0[%d]" % k not in a[1]:
                     why = "lookup %d searches %s for %s; expected the node reached so far (%s) and component %d of the location" % (k, a[0], a[1], cur, k)
                     break
                 hv = dec.get("has_value(#%d:find_child_const)" % i)
@@ -296,7 +296,7 @@ def main(rep, tier, only):
             if p.outcome[0] != "return":
                 continue
             complete += 1
-            n_more = len([1 for a, b in dec.items() if a.startswith("more(_location") and b])
+            n_more = len([1 for a, b in dec.items() if a.startswith("more(r_a0") and b])
             if not stopped and len(finds) != n_more:
                 why = "%d components but %d lookups" % (n_more, len(finds))
                 break
@@ -356,18 +356,18 @@ def main(rep, tier, only):
         if fn.get("kind") != "ctor" or len(fn.get("params", [])) != 3:
             continue
         u = fn["_unit"]
-        if "context_tree" not in (u.ty(fn["params"][1]["t"]) or "") and fn["params"][1]["name"] != "_node":
+        if "context_tree" not in (u.ty(fn["params"][1]["t"]) or "") :
             continue
         init = next((i for i in fn.get("inits", []) if i.get("field") == "formatter_"), None)
         t = T.show(T.norm(u, init["init"])) if init else ""
-        ok = bool(re.search(r"chain\(_parameters\.formatter\(\), tree_formatter\(node_(\.get\(\))?\)\)", t))
+        ok = bool(re.search(r"chain\(r_a2\.formatter\(\), tree_formatter\(node_(\.get\(\))?\)\)", t))
         (rep.ok if ok else rep.fail)("FMT", "object::object|formatter_", F.primary_site(fn), F.fn_name(fn),
                                      **({"how": "chain(own formatter, location prefix)"} if ok else
                                         {"why": "formatter_ is %s; documented order is chain(parameters.formatter(), tree_formatter(node)): the object's own formatter wraps the location prefix" % t}))
     for fn in L.method_fns(db, "fcppt::log::level_stream", "log"):
         u = fn["_unit"]
         chains = [T.show(T.norm(u, n)) for n in F.walk(fn.get("body")) if n.get("k") == "call" and T.callee_qn(u, n) == "fcppt::log::format::chain"]
-        ok = chains == ["chain(_additional_formatter, formatter())"] or chains == ["chain(_additional_formatter, this.formatter())"]
+        ok = chains == ["chain(r_a1, formatter())"] or chains == ["chain(r_a1, this.formatter())"]
         (rep.ok if ok else rep.fail)("FMT", "level_stream::log", F.primary_site(fn), F.fn_name(fn),
                                      **({"how": "chain(additional, level formatter)"} if ok else
                                         {"why": "level_stream::log composes %s; documented: the additional (object) formatter is used first, i.e. chain(_additional_formatter, formatter())" % chains}))
@@ -375,12 +375,12 @@ def main(rep, tier, only):
         u = fn["_unit"]
         why = None
         folds = [n for n in F.walk(fn.get("body"), into_lambdas=False) if n.get("k") == "call" and T.callee_qn(u, n) == "fcppt::algorithm::fold"]
-        if len(folds) != 1 or "make_to_root(_node)" not in T.show(T.norm(u, folds[0]["args"][0])):
+        if len(folds) != 1 or "make_to_root(r_a0)" not in T.show(T.norm(u, folds[0]["args"][0])):
             why = "the prefix is not a fold over make_to_root(_node)"
         else:
             chains = [n for n in F.walk(folds[0]["args"][2]) if n.get("k") == "call" and T.callee_qn(u, n) == "fcppt::log::format::chain"]
             a = [T.show(T.norm(u, x)) for x in chains[0]["args"]] if len(chains) == 1 else []
-            if len(a) != 2 or "prefix(" not in a[0] or "_state" not in a[1] or "_state" in a[0]:
+            if len(a) != 2 or "prefix(" not in a[0] or "r_la1" not in a[1] or "r_la1" in a[0]:   # fold lambda (element, state)
                 why = "each step is chain(%s): expected chain(prefix(name of the node), accumulated formatter) so that ancestors come first" % ", ".join(a)
         (rep.fail if why else rep.ok)("FMT", "tree_formatter", F.primary_site(fn), F.fn_name(fn), **({"why": why} if why else {"how": "fold to root: chain(prefix(name), state)"}))
         break
